@@ -491,7 +491,31 @@ pub fn run(ctx: &'static Ctx) -> (&'static str, Value, Vec<&'static str>) {
             st
         })
         .reduce(Stats::new, Stats::merge);
-    let mut stats = sa.merge(sb).merge(sc).merge(sd).merge(se).merge(s1).merge(s2);
+    // history: entry points called back to back on one fresh thread with large / failing / tiny inputs
+    let hin: Vec<(usize, u8, Vec<u8>)> = vec![
+        (3, 0, t31_extreme(2, &[40, 40 + 28 + 65535], b"REF", 65535, 8, 65535)),
+        (3, 0, t31_extreme(1, &[36], b"VEL", 4, 8, 2)),
+        (0, 0, (0..3).flat_map(|i| message_bytes(9, i)).collect()),
+        (0, 0, message_bytes(7, 0)[..100].to_vec()),
+        (5, 0, vcp_body(&vcp_header_hw(212, 51), &(0..51).map(|i| VcpCut::new(0x58, 0, 1, 1, i)).collect::<Vec<_>>())),
+        (5, 0, vcp_body(&vcp_header_hw(212, 60), &[])),
+        (6, 0, vec![0, 1, 0, 2, 0, 1, 0xFF, 0xFF]),
+        (2, 5, vec![0u8; 10]),
+    ];
+    let sh = history_check(
+        ctx,
+        "decode_entry_points",
+        hin.len(),
+        3,
+        |i| {
+            let mut st = Stats::new();
+            let before = ctx.failure_count();
+            let o = call(ctx, hin[i].0, hin[i].1, &hin[i].2, "history", &mut st);
+            format!("{o}|{}", ctx.failure_count() - before)
+        },
+        |i| format!("{}({} bytes)", ENTRY_NAMES[hin[i].0], hin[i].2.len()),
+    );
+    let mut stats = sa.merge(sb).merge(sc).merge(sd).merge(se).merge(s1).merge(s2).merge(sh);
     stats.sample(3, || json!({"entry": "decode_digital_radar_data", "origin": "field extremes", "bytes_hex": hex(&ext[ext.len() / 2][..64.min(ext[ext.len() / 2].len())])}));
     stats.sample(3, || json!({"entry": "decode_messages", "origin": "prefix", "stream": ["t31_basic", "status"], "cut": 1234}));
     let cov = stats.coverage(
